@@ -87,40 +87,37 @@ Theorem C09_names_unique tports sigs ios subs r :
 Proof. exact (assign_names_unique tports sigs ios subs r). Qed.
 Print Assumptions C09_names_unique.
 
-(* ... and it does return (the `assert` in _add_name cannot fail) when no user-chosen name looks like
-   a generated one, s$<number>.  Anonymous subfragments (`Type$<index>`) are covered. *)
-Theorem C09_names_total tports sigs ios subs :
-  bounded (fst (fst (reserve_ports tports))) ->
-  Forall (fun c => plain (snd c)) sigs -> Forall (fun c => plain (snd c)) ios ->
-  Forall (fun s => match fst s with Some n => plain n | None => True end) subs ->
-  exists r, assign_names tports sigs ios subs = Some r.
+(* ... and it ALWAYS returns: for every fragment, whatever the names (since fix cb9d97a the retry loop of
+   _add_name replaces the assertion; its |assigned|+1 iterations of fuel in the model are never exhausted) *)
+Theorem C09_names_total tports sigs ios subs : exists r, assign_names tports sigs ios subs = Some r.
 Proof. exact (assign_names_total tports sigs ios subs). Qed.
 Print Assumptions C09_names_total.
 
-(* sharper, per request: the j-th request on a set of size b may look like s$<k> as long as k <= b + j *)
-Theorem C09_add_names_total ns A :
-  bounded A -> suffixes_ok (zlen A) ns ->
-  exists out A', add_names A ns = Some (out, A') /\ bounded A' /\ zlen A' = zlen A + zlen ns.
+(* every run of _add_name calls on every set returns *)
+Theorem C09_add_names_total ns A : exists out A', add_names A ns = Some (out, A').
 Proof. exact (add_names_total ns A). Qed.
 Print Assumptions C09_add_names_total.
 
-(* two signals a, an anonymous subfragment of type a at index 0 and one named a: names a, a$1, a$0, a$3;
-   all hypotheses of C09_names_total hold for it *)
+(* what a single call returns: a name not in the set; either the requested one, or (requested name already
+   taken) name$i with i >= len(set); the set grows by exactly that name *)
+Theorem C09_add_name_spec A n n' A' : add_name A n = Some (n', A') ->
+  ~ In n' A /\ A' = A ++ [n'] /\
+  (n' = n \/ (In n A /\ exists i, zlen A <= i /\ n' = n ++ [dollar] ++ dec i)).
+Proof. exact (add_name_spec A n n' A'). Qed.
+Print Assumptions C09_add_name_spec.
+
+(* two signals a, an anonymous subfragment of type a at index 0 and one named a: names a, a$1, a$0, a$3 *)
 Example C09_names_example :
-  let sigs := [(0, n_a); (1, n_a)] in
-  let subs := [(None, n_a); (Some n_a, n_b)] in
-  bounded (fst (fst (reserve_ports []))) /\
-  Forall (fun c => plain (snd c)) sigs /\
-  Forall (fun s => match fst s with Some n => plain n | None => True end) subs /\
-  option_map (fun r => (vals (nm_signals r), nm_subs r)) (assign_names [] sigs [] subs)
+  option_map (fun r => (vals (nm_signals r), nm_subs r))
+             (assign_names [] [(0, n_a); (1, n_a)] [] [(None, n_a); (Some n_a, n_b)])
   = Some ([[97]; [97; 36; 49]], [[97; 36; 48]; [97; 36; 51]]).
-Proof.
-  assert (P : plain n_a).
-  { intros s k Hk E; simpl in E; apply (f_equal (@rev Z)) in E;
-    rewrite !rev_app_distr in E; simpl in E; destruct (rev (dec k)) as [|? [|? ?]]; simpl in E; discriminate. }
-  split; [apply plain_bounded; constructor|]. split; [repeat constructor; exact P|].
-  split; [repeat constructor; exact P|vm_compute; reflexivity].
-Qed.
+Proof. vm_compute; reflexivity. Qed.
+
+(* S3 (fixed by cb9d97a; the old code died with AssertionError): signals a, a$2, a in one fragment —
+   index 2 = len(set) is taken by the user's a$2, the loop moves on to a$3 *)
+Example C09_names_s3_example :
+  option_map (fun r => vals (nm_signals r)) (assign_names [] s3_sigs [] []) = Some [[97]; [97; 36; 50]; [97; 36; 51]].
+Proof. exact assign_names_s3. Qed.
 
 (* top fragment with ports a (signal 0, named a) and b (signal 1, named a): signal 0 shares the port name,
    signal 1 and a third signal a get a$2, a$3; the hypotheses of C09_names_unique / C09_add_names_unique hold *)
@@ -135,12 +132,6 @@ Proof.
   split; [repeat constructor; simpl; intuition discriminate|]. split; [vm_compute; reflexivity|].
   split; [repeat constructor; simpl; tauto|]. split; vm_compute; reflexivity.
 Qed.
-
-(* S3: signals named a, a$2, a in one fragment — the faithful model hits the assertion, so
-   "name assignment always succeeds" is false without the hypothesis above *)
-Theorem C09_names_assert_refuted : assign_names [] s3_sigs [] [] = None.
-Proof. exact assign_names_assert_refuted. Qed.
-Print Assumptions C09_names_assert_refuted.
 
 (* Design._assign_port_names: the generated port names are new and pairwise distinct *)
 Theorem C09_port_names_unique ports A l :
@@ -244,11 +235,7 @@ Theorem C09_reset_keeping_triggers_refuted :
 Proof. exact reset_keeping_triggers_refuted. Qed.
 Print Assumptions C09_reset_keeping_triggers_refuted.
 
-(* the port-name set left by _assign_port_names (initial set ++ generated names) is `bounded` when the set it
-   started from is and no unnamed port's signal has a name of the form s$<number>: the first hypothesis of
-   C09_names_total is what _assign_port_names establishes *)
-Theorem C09_port_names_bounded ports A l :
-  bounded A -> Forall (fun p => fst p = None -> plain (snd p)) ports ->
-  port_names_go A ports = Ok l -> bounded (A ++ gen_ports ports l).
-Proof. exact (port_names_go_bounded ports A l). Qed.
-Print Assumptions C09_port_names_bounded.
+(* _assign_port_names either returns the port names or raises TypeError (a private-named unnamed port) *)
+Theorem C09_port_names_total ports A : port_names_go A ports <> AssertErr.
+Proof. exact (port_names_go_total ports A). Qed.
+Print Assumptions C09_port_names_total.
